@@ -147,7 +147,7 @@ theorem C07_celestia_tamper_evident (c : Ctx) (hs : c.Hs.Sized) (hV : Verifier.S
     · exact Or.inl col
     · exact Or.inr ⟨h1, h2 blob hl hv, h3⟩
 
-/-- **Receiver attribution, with the rollup-id check** (`reconstruct … true`, the repair proposed
+/-- **Receiver attribution, with the rollup-id check** (`reconstruct … true`: the code as repaired by `fix:` 793934a,
     for DESIGN §7 F10): every reconstructed block is either an empty block for a header that does
     not list the conductor's rollup, or carries the transactions of a blob *of the conductor's
     rollup* that passed the audit against the root of the header with the same block hash. -/
@@ -159,7 +159,7 @@ theorem C07_receiver_attribution (c : Ctx) (rollupId : Bytes) (hs : List Meta) (
         verifyBlob c blob m = .value true ∧ r = ⟨m.blockHash, m.header, blob.txs⟩) :=
   reconstruct_attribution c rollupId hs blobs out h
 
-/-- **As the code is** (no rollup-id check): what is attached to a header is bound to that
+/-- **As the code was at the pinned commit** (`reconstruct … false`, no rollup-id check; kept as the regression witness of F10): what is attached to a header is bound to that
     header's root and block hash — but it may be another rollup's blob (next theorem). -/
 theorem C07_receiver_bound_partial (c : Ctx) (rollupId : Bytes) (hs : List Meta) (blobs : List Blob)
     (out : List Reconstructed) (h : reconstruct c false rollupId hs blobs = .value out) :
@@ -169,7 +169,7 @@ theorem C07_receiver_bound_partial (c : Ctx) (rollupId : Bytes) (hs : List Meta)
         verifyBlob c blob m = .value true ∧ r = ⟨m.blockHash, m.header, blob.txs⟩) :=
   reconstruct_bound c false rollupId hs blobs out h
 
-/-! ### Non-vacuity and the counterexample for the unchanged `reconstruct.rs` -/
+/-! ### Non-vacuity and the counterexample for `reconstruct.rs` as pinned (before 793934a) -/
 
 /-- position-weighted byte sum, the ingredient of the toy digest -/
 def wsum : Nat → Bytes → Nat
@@ -220,7 +220,7 @@ def attributionCounterexample : Bool :=
       reconstruct c true idA [(split b).1] [blobB] == .value []
     | _ => false
 
-/-- **Not true of the unchanged `reconstruct.rs`** (DESIGN §7 F10): the rollup blob's rollup id
+/-- **Not true of `reconstruct.rs` as pinned, before 793934a** (DESIGN §7 F10): the rollup blob's rollup id
     is never compared with the conductor's. -/
 theorem C07_receiver_attribution_counterexample : attributionCounterexample = true := by decide +kernel
 
